@@ -1,18 +1,40 @@
 (* C08 — Filtering keeps exactly the accepted nodes and their ancestors.
-   Statements only; proofs are in theories/Forest/FilterProofs.v, the
-   executable model in theories/Forest/Filter.v.
+   Statements only; proofs are in theories/Forest/FilterProofs.v (+ FilterUnique.v, FilterAudit.v,
+   FilterTrace.v, FilterSource.v), the executable model in theories/Forest/Filter.v.
+
+   WHAT IS CLAIMED (read this before the theorem list).
+   * In place (Tree.filter / Node.filter, repaired: D05, D25): the property as stated -- the result is F v f
+     (C08_inplace_is_F), whose node set is exactly [kept] (C08_kept_exactly), each node once, order and
+     ancestry preserved.
+   * Copying (Tree.filtered / copy(predicate=) / Node.…): NOT the property as stated.  The EXACT theorems are
+       C08_copy_is_dbl_F      the copy = dbl v mk (F v f) up to the new node identities, for ALL v and f:
+                              F plus one extra leaf copy under every VISITED node answered True or
+                              SkipBranch(and_self=False)  (known finding D24, pinned by the suite), and
+       C08_copy_refused_iff   the call raises UniqueConstraintError iff that tree has two siblings with one data_id.
+     "in place = copying" as the English says it holds iff no visited node is answered True or
+     SkipBranch(and_self=False) (C08_copy_is_F_iff, an iff): that is (2/3)^n of the verdict assignments when every
+     node is visited, and for a bool-valued predicate (True/False only) iff NOTHING is kept
+     (C08_copy_is_F_for_bool_predicates) -- every bool-valued predicate that accepts at least one visited node is
+     in the D24 region; outside it acceptance is possible only through SelectBranch.  The size of the
+     difference is exact: C08_copy_size, C08_copy_occurrences.  The full statement is kept and refuted twice
+     (C08_copy_refuted, C08_copy_can_fail_refuted).
+   * "The copying form leaves the source untouched" is NOT a theorem: [filtered] is a pure function, the clause is
+     true of the model by construction and no model change could break it.  It is checked on every case by the
+     harness oracle (pointer snapshot + rendering of the source before/after) and by the correspondence (source
+     shape after the copying calls).
 
    v : nat -> verdict     what the predicate answers on each node (after call_predicate)
    F v f                  the filter spec (structural recursion, stop flag threaded in pre-order)
    kept v f n             the set characterisation of the statement (independent of F's recursion)
    filter_inplace v f     mirror of Node.filter._visit (repaired: D05, D25) on the child list f
    filtered v mk f        mirror of Node._add_filtered with its parent stack (Tree.filtered / copy(predicate=))
-   dbl v mk g             g plus the D24 leaves (known finding, pinned by tests/test_core.py::TestCopy::test_filtered)
+   filter_inplace_tr, add_filtered_tr   the same two scans with the predicate calls logged (what run08 evaluates for the logs)
+   dbl v mk g             g plus the D24 leaves
    mk : info -> info      how the copying scan re-creates a node (add_child(n) without a kind argument): the identity
                           in a plain Tree, "kind := DEFAULT_CHILD_TYPE" in a TypedTree (CaseC08.remake); the scans
                           themselves never look at kinds, so every theorem holds for every mk *)
 From Coq Require Import List ZArith Bool Arith.
-From NT Require Import Sx Rose Filter FilterProofs FilterUnique FilterSource CaseC08.  (* CaseC08: so that the correspondence entry point is rebuilt with the theorems *)
+From NT Require Import Sx Rose Filter FilterProofs FilterUnique FilterAudit FilterTrace FilterSource CaseC08.  (* CaseC08: so that the correspondence entry point is rebuilt with the theorems *)
 From NTGen Require Import Generated.
 Import ListNotations.
 
@@ -124,14 +146,21 @@ Theorem C08_copy_is_dbl_F : forall v mk f nx, same_modulo_ids (fst (add_filtered
 Proof. exact add_filtered_is_dbl_F. Qed.
 Print Assumptions C08_copy_is_dbl_F.
 
-(* the nodes of the copy are new nodes with consecutive allocation indices in
-   pre-order: every node of the copy exists exactly once *)
+(* the IDENTITIES of the copy are new and pairwise distinct: consecutive allocation indices in pre-order.
+   (This is a statement about the new node objects only -- it holds for any pre-order allocator -- and NOT the
+   clause "kept nodes appear once each"; for that clause see C08_copy_occurrences below.) *)
 Theorem C08_copy_nodes_fresh : forall v mk f nx,
   ids (fst (add_filtered v mk f nx)) = seq nx (length (ids (fst (add_filtered v mk f nx)))) /\
   snd (add_filtered v mk f nx) = nx + length (ids (fst (add_filtered v mk f nx))).
 Proof. exact add_filtered_ids. Qed.
 Print Assumptions C08_copy_nodes_fresh.
 
+Theorem C08_copy_ids_fresh_and_distinct : forall v mk f,
+  NoDup (ids (filtered v mk f)) /\ ids (filtered v mk f) = seq 1 (length (ids (filtered v mk f))).
+Proof. exact filtered_fresh. Qed.
+Print Assumptions C08_copy_ids_fresh_and_distinct.
+
+(* old name of the same statement, kept for files that refer to it; it does not say that kept nodes occur once *)
 Theorem C08_copy_once_each : forall v mk f,
   NoDup (ids (filtered v mk f)) /\ ids (filtered v mk f) = seq 1 (length (ids (filtered v mk f))).
 Proof. exact filtered_fresh. Qed.
@@ -148,7 +177,45 @@ Theorem C08_inplace_eq_copy_modulo_dbl : forall v mk f, NoDup (ids f) ->
 Proof. exact inplace_vs_copy. Qed.
 Print Assumptions C08_inplace_eq_copy_modulo_dbl.
 
-(* outside the region of D24 the copying form is F *)
+(* "kept nodes appear once each" for the copying form, precisely.  The copy equals dbl v mk (F v f) position by
+   position up to the new identities (same shape; same payloads: C08_copy_payloads).  In dbl v mk (F v f), which
+   still carries the SOURCE identities: a source node that is not kept does not occur; a kept one occurs exactly
+   once; a visited one answered True / SkipBranch(and_self=False) occurs exactly twice -- the occurrence that
+   carries its kept children, and one extra leaf [T id (mk i) []] placed first among those children (definition
+   of dbl_t).  So a kept node's data occurs twice in the copy inside the D24 region, once outside. *)
+Theorem C08_copy_occurrences : forall v mk f n, NoDup (ids f) ->
+  let k := count_occ Nat.eq_dec (ids (dbl v mk (F v f))) n in
+  (~ kept v f n -> k = 0) /\
+  (kept v f n -> ~ (In n (visited v f) /\ doubled (v n) = true) -> k = 1) /\
+  (In n (visited v f) -> doubled (v n) = true -> k = 2).
+Proof. exact copy_occurrences. Qed.
+Print Assumptions C08_copy_occurrences.
+
+Theorem C08_copy_payloads : forall v mk f nx,
+  map rinfo (pre_f (fst (add_filtered v mk f nx))) = map rinfo (pre_f (dbl v mk (F v f))).
+Proof. exact copy_payloads. Qed.
+Print Assumptions C08_copy_payloads.
+
+(* the copy has exactly one node more than F per visited node answered True / SkipBranch(and_self=False) *)
+Theorem C08_copy_size : forall v mk f nx,
+  length (ids (fst (add_filtered v mk f nx))) = length (ids (F v f)) + length (filter (fun n => doubled (v n)) (visited v f)).
+Proof. exact copy_size. Qed.
+Print Assumptions C08_copy_size.
+
+(* THE EXACT REGION of D24 (plain tree): the copying form gives the result the property states
+   iff no VISITED node is answered True or SkipBranch(and_self=False) *)
+Theorem C08_copy_is_F_iff : forall v f,
+  same_modulo_ids (filtered v (fun i => i) f) (F v f) <-> (forall n, In n (visited v f) -> doubled (v n) = false).
+Proof. exact copy_is_F_iff. Qed.
+Print Assumptions C08_copy_is_F_iff.
+
+(* ... for every bool-valued predicate: iff nothing at all is kept *)
+Theorem C08_copy_is_F_for_bool_predicates : forall v f, NoDup (ids f) -> (forall n, v n = VTrue \/ v n = VFalse) ->
+  (same_modulo_ids (filtered v (fun i => i) f) (F v f) <-> F v f = []).
+Proof. exact copy_is_F_bool. Qed.
+Print Assumptions C08_copy_is_F_for_bool_predicates.
+
+(* a sufficient condition on all nodes (weaker than C08_copy_is_F_iff, kept) *)
 Theorem C08_copy_is_F_outside_D24 : forall v f,
   (forall n, In n (ids f) -> v n <> VTrue /\ v n <> VSkipKeepSelf) -> same_modulo_ids (filtered v (fun i => i) f) (F v f).
 Proof. exact filtered_is_F_outside_D24. Qed.
@@ -255,6 +322,30 @@ Theorem C08_no_stop : forall v f, has_stop v (reach v f) = false ->
 Proof. exact no_stop_no_cut. Qed.
 Print Assumptions C08_no_stop.
 
+(* THE CALL TRACE OF THE EXECUTABLE SCANS.  [filter_inplace_tr] / [add_filtered_tr] are the two scans with the
+   predicate calls logged at the place of call_predicate (the functions run08 evaluates for the logs):
+   forgetting the log gives exactly the scans the theorems above are about, and the log is the spec's call list
+   [calls v f] = the reached nodes in pre-order up to and including the first stop answer: nothing is asked
+   below a skip / select answer, nothing twice, nothing after a stop *)
+Theorem C08_inplace_trace : forall v f, filter_inplace_tr v f = (filter_inplace v f, calls v f).
+Proof. exact filter_inplace_tr_spec. Qed.
+Print Assumptions C08_inplace_trace.
+
+Theorem C08_copy_trace : forall v mk f nx,
+  add_filtered_tr v mk f nx = (fst (add_filtered v mk f nx), snd (add_filtered v mk f nx), calls v f).
+Proof. exact add_filtered_tr_spec. Qed.
+Print Assumptions C08_copy_trace.
+
+(* ... also for a predicate given by what it does: returned or RAISED signals (instances, classes, StopIteration);
+   both scans ask the same nodes *)
+Theorem C08_traces_raw : forall (p : nat -> raw) mk f nx,
+  snd (filter_inplace_tr (fun n => classify_ip (call_predicate (p n))) f) = calls (fun n => classify_ip (call_predicate (p n))) f /\
+  snd (add_filtered_tr (fun n => classify_cp (call_predicate (p n))) mk f nx) = calls (fun n => classify_cp (call_predicate (p n))) f /\
+  calls (fun n => classify_ip (call_predicate (p n))) f = calls (fun n => classify_cp (call_predicate (p n))) f.
+Proof. exact traces_raw. Qed.
+Print Assumptions C08_traces_raw.
+
+(* (older form: a hand-written skeleton that takes only the stopped flag from the scans) *)
 (* the calls of the predicate made by both scans (mirrored loops with their
    stopped flags) are the reached nodes up to and including the stopping one:
    nothing is asked below a skip / select answer or after a stop *)
@@ -410,6 +501,30 @@ Example C08_typed_kinds :
 Proof. split; [vm_compute; reflexivity|]. split; [vm_compute; reflexivity|]. split; intros i; reflexivity. Qed.
 
 (* ====================================================================================== *)
+(* audit examples: the suite's fixture and predicate -- the data objects of the copy in pre-order (a12 and a2 twice),
+   occurrences of source identities in dbl (F), the size, both sides of the iff, a raised stop in a trace *)
+Example C08_fixture_copy :
+  map (fun i => i_obj i) (map rinfo (pre_f (filtered pred_2_in_name (fun i => i) fixture))) = [1; 2; 4; 4; 5; 5]%Z /\
+  map (fun n => count_occ Nat.eq_dec (ids (dbl pred_2_in_name (fun i => i) (F pred_2_in_name fixture))) n) [1; 2; 3; 4; 5; 6]
+    = [1; 1; 0; 2; 2; 0] /\
+  visited pred_2_in_name fixture = [1; 2; 3; 4; 5; 6; 7; 8] /\
+  filter (fun n => doubled (pred_2_in_name n)) (visited pred_2_in_name fixture) = [4; 5] /\
+  length (ids (filtered pred_2_in_name (fun i => i) fixture)) = 6 /\ length (ids (F pred_2_in_name fixture)) = 4 /\
+  (forall n, pred_2_in_name n = VTrue \/ pred_2_in_name n = VFalse) /\
+  F pred_2_in_name fixture <> [].
+Proof.
+  refine (conj _ (conj _ (conj _ (conj _ (conj _ (conj _ (conj _ _))))))); try (vm_compute; reflexivity).
+  - intros n. unfold pred_2_in_name. destruct (Nat.eqb n 4 || Nat.eqb n 5)%bool; [left|right]; reflexivity.
+  - vm_compute. discriminate.
+Qed.
+
+Definition raising (n : nat) : raw := match n with 2 => RRaise CSelect | 5 => RRaise (CSkip (Some false)) | 7 => RRaise (CSkip None) | 8 => RBool true | 9 => RRaiseStopIteration | _ => RNone end.
+Example C08_trace_raised :
+  filter_inplace_tr (fun n => classify_ip (call_predicate (raising n))) mixed
+    = ([nd 1 [nd 2 [nd 3 []; nd 4 []]; nd 5 []]; nd 8 []], [1; 2; 5; 7; 8; 9]) /\
+  snd (add_filtered_tr (fun n => classify_cp (call_predicate (raising n))) (fun i => i) mixed 1) = [1; 2; 5; 7; 8; 9].
+Proof. split; vm_compute; reflexivity. Qed.
+
 (* Glue C08 <-> C04/C07 (theories/Glue/GlueFilter.v).  The copying form above ([filtered], Node.
    _add_filtered) against what the mutation machine (Mut/Machine.v) does for "Tree.copy(), then filter the
    copy in place": [op_tree_copy] allocates the copy node by node (fresh identities in pre-order),
